@@ -372,3 +372,55 @@ def arg_names(ctx, rule, callee_ok, exceptions, min_sites, P=None):
     if n < min_sites:
         raise AnalysisError(f'{rule}: only {n} named arguments found')
     return res
+
+
+def arg_forward(ctx, rule, min_sites, P=None):
+    """a constructor parameter that the base-class constructor also has is
+    handed on to it (by position or keyword): a parameter accepted by the
+    subclass and silently dropped makes the base class use its default."""
+    P = P or ctx.P
+    res = Result(rule, 'every constructor parameter that the base-class '
+                 'constructor also declares is forwarded in the base '
+                 'constructor call')
+    n = 0
+    for cn, c in P.classes.items():
+        f = c.methods.get('__init__')
+        if f is None:
+            continue
+        for call in ast.walk(f.node):
+            if not isinstance(call, ast.Call):
+                continue
+            fn = unparse(call.func)
+            base, explicit = None, False
+            if fn == 'super().__init__':
+                for k in P.mro(cn)[1:]:
+                    if '__init__' in P.classes[k].methods:
+                        base = P.classes[k].methods['__init__']
+                        break
+            elif fn.endswith('.__init__') and fn.split('.')[0] in P.classes:
+                base = P.lookup(fn.split('.')[0], '__init__')
+                explicit = True
+            if base is None:
+                continue
+            bparams = base.params
+            args = call.args[1:] if explicit else call.args
+            star = any(isinstance(a, ast.Starred) for a in args) or \
+                any(k.arg is None for k in call.keywords)
+            bound = {bparams[i] for i in range(min(len(args), len(bparams)))}
+            bound |= {k.arg for k in call.keywords if k.arg}
+            n += 1
+            res.saw(f)
+            missing = [p for p in f.params if p in bparams and p not in bound]
+            if missing and not star:
+                res.fail(ctx.finding(
+                    rule, f, call,
+                    f'{cn}.__init__ accepts {missing} but does not pass '
+                    f'{"it" if len(missing) == 1 else "them"} to '
+                    f'{base.qual}, which falls back to its default',
+                    construct=f'{cn}.__init__ drops {",".join(missing)}'))
+            else:
+                res.ok(f'{cn}.__init__ -> {base.qual}' if n <= 3 else None)
+    res.min_instances = min_sites
+    if n < min_sites:
+        raise AnalysisError(f'{rule}: only {n} base-constructor calls found')
+    return res
